@@ -114,10 +114,10 @@ func hasSig(r *simrt.Run, sig string) bool {
 }
 
 // minimise shrinks a failing tape while the same violation signature persists.
-// 1. span deletion: the tape records which ranges are self-contained decisions
-//    (a slot, an operation); whole spans are removed ddmin-style, outer level
-//    first, which keeps everything after them aligned. 2. tail truncation.
-// 3. lowering single entries toward zero (simpler operation, no fault).
+//  1. span deletion: the tape records which ranges are self-contained decisions
+//     (a slot, an operation); whole spans are removed ddmin-style, outer level
+//     first, which keeps everything after them aligned. 2. tail truncation.
+//  3. lowering single entries toward zero (simpler operation, no fault).
 func minimise(t *testing.T, p *Prop, seed uint64, first *simrt.Run, sig, tier string, known map[string]bool, budget time.Duration, maxTries int) ([]uint32, int) {
 	deadline := time.Now().Add(budget)
 	tries := 0
